@@ -19,6 +19,12 @@ ENGINES = [
      "serves_properties": ["C16", "C17", "C18", "C19", "C20", "C21", "C22", "C24"],
      "kind_free_text": "TLA+ monitors over traces of real threads on database clones; protocol events from hook H1 are "
                        "replayed through the SyncOps actions (guards + invariants)"},
+    {"name": "generative-models", "path": "specs/core/CoreGen.tla, specs/cycle/Fixpoint.tla, specs/cycle/FixRev.tla, specs/intern/Intern.tla, "
+                                          "specs/sync/SyncProto.tla, specs/sync/SyncXfer.tla, specs/cancel/Cancel.tla, specs/alloc/PageAlloc.tla",
+     "serves_properties": ["C01", "C02", "C03", "C04", "C05", "C08", "C09", "C12", "C13", "C16", "C17", "C18", "C19", "C20", "C21", "C22", "C24"],
+     "kind_free_text": "implementation-shaped TLA+ / PlusCal specifications model checked (or simulated) by TLC inside the checks; the "
+                       "sequential ones emit every behaviour, which is replayed on real salsa and compared (values, execution "
+                       "sequences, validated sets, interned handles)"},
     {"name": "core-trace", "path": "specs/core/CoreTrace.tla",
      "serves_properties": ["C01", "C02", "C03", "C04", "C05", "C06", "C07", "C08", "C09", "C10", "C11", "C12", "C13", "C14", "C15", "C23", "C26"],
      "kind_free_text": "TLA+ monitor (trace specification) over Sem.tla reference semantics, evaluated by TLC on traces "
@@ -49,15 +55,26 @@ META = {
     "C06": seq("Struct identity stability/distinctness and discard obligations in the monitor.", "§7 C06"),
     "C07": seq("Reads through struct / interned handles are compared with the from-scratch semantics; a validated memo must "
                "not depend on a reclaimed struct or interned value.", "§7 C07"),
-    "C08": seq("Per-revision canonical map (value <-> handle), field round trip and identity retention in the monitor "
-               "(sequential part; the concurrent part is added with the shuttle driver).", "§7 C08"),
-    "C09": seq("At every DidReuseInternedValue the monitor's copy of the slot must be LOW, collectable, primed and stale "
-               "w.r.t. the active-revision queue (hook H5).", "§7 C09"),
+    "C08": seq("Intern.tla (generative interner model: Canonical / HandleValid invariants by TLC, every behaviour replayed on "
+               "salsa with the exact predicted handles); per-revision canonical map (value <-> handle), field round trip and "
+               "identity retention in the monitor, sequentially and with concurrent interning on clones.", "§4, §7 C08",
+               "TLC model checking of Intern.tla + replay of its behaviours into salsa + TLA+ trace validation (CoreTrace / ParTrace)"),
+    "C09": seq("Intern.tla: reuse only of LOW, stale slots once the revision queue is primed (TLC, all programs and histories "
+               "within the bounds; behaviours replayed on salsa with exact handles). At every DidReuseInternedValue the monitor's "
+               "copy of the slot must be LOW, collectable, primed and stale w.r.t. the active-revision queue (hook H5).", "§4, §7 C09",
+               "TLC model checking of Intern.tla + replay of its behaviours into salsa + TLA+ trace validation (CoreTrace)"),
     "C10": seq("Specified values vs the specify rules of Sem.tla; body of a validly specified key must not run.", "§7 C10"),
     "C11": seq("accumulated() results compared with AccumRef (depth-first, first-call order) of Sem.tla.", "§7 C11"),
-    "C12": seq("Every top-level result of programs with fixpoint cycles is compared by TLC with the Kleene least fixpoint "
-               "(Sem.tla Lfp) of the body equations, for every entry point and random write histories.", "§7 C12"),
-    "C13": seq("Results vs SemTableFb (members of an input-determined call-graph cycle return their fallback).", "§7 C13"),
+    "C12": seq("Fixpoint.tla / FixRev.tla: implementation-shaped models of fixpoint iteration (single revision: all 2197 programs "
+               "of 3 functions x all request orders; across revisions with an input, writes, deep verification, flattening, "
+               "backdating: exhaustive for 2 functions, simulated for 3): every result is the least fixpoint; every behaviour is "
+               "replayed on salsa (values and body-execution sequences, drift 0). Every top-level result of random programs with "
+               "fixpoint cycles is compared by TLC with the Kleene least fixpoint (Sem.tla Lfp).", "§4, §5, §7 C12",
+               "TLC model checking / simulation of Fixpoint.tla and FixRev.tla + replay of their behaviours into salsa + TLA+ trace validation (CoreTrace)"),
+    "C13": seq("FixRev.tla with the cycle_result strategy (the model reproduces the history dependence recorded as findings F3/F4; "
+               "its behaviours are replayed on salsa, drift 0). Results of random programs vs SemTableFb (members of an "
+               "input-determined call-graph cycle return their fallback).", "§4, §7 C13",
+               "TLC model checking / simulation of FixRev.tla (Fb) + replay into salsa + TLA+ trace validation (CoreTrace)"),
     "C14": seq("Requests whose from-scratch evaluation re-enters a function without recovery must panic with the cycle "
                "error; all other results stay from-scratch.", "§7 C14 (sequential part)"),
     "C15": seq("Programs without a fixpoint: outcome must be the iteration-limit panic (or a propagated panic in the same "
@@ -66,12 +83,16 @@ META = {
                "events validated against SyncOps.", "§7 C16"),
     "C17": par("At most one WillExecute per key and revision across all handles.", "§7 C17"),
     "C18": par("Cross-thread fixpoint / fallback cycles: results vs Lfp / fallback semantics, termination.", "§7 C18"),
-    "C19": par("The property is the set of SyncOps guards and invariants: each H1 event of each run is checked.", "§7 C19"),
+    "C19": par("The property is the set of SyncOps guards and invariants: each H1 event of each run is checked, the wait-for "
+               "edges logged after a lock transfer must equal the model's, and a thread unwinding from a panic must hand Panicked "
+               "to its waiters unless its own non-deferred cancellation fires.", "§7 C19"),
     "C20": par("Writer exclusion (hook H4) and PendingWrite ordering monitors, results per revision.", "§7 C20"),
     "C21": par("must-unwind / may-unwind monitors for Cancelled::Local, results of all handles.", "§7 C21"),
     "C22": dict(par("Crash-point enumeration: one run per user callback of each base history with a panic injected there; the "
                     "monitors check that the panic reaches the caller, waiters are released, and every later result is "
-                    "from-scratch.", "§7 C22", "fault enumeration + TLA+ trace validation (CoreTrace / ParTrace / SyncTrace)"),
+                    "from-scratch; FixRev.tla with user panics (unwinding, poisoned memos, propagated panics, recovery in "
+                    "later revisions) is model checked and its behaviours are replayed on salsa.", "§4, §7 C22",
+                    "fault enumeration + TLC model checking of FixRev.tla (panics) with replay + TLA+ trace validation (CoreTrace / ParTrace / SyncTrace)"),
                 level="fault_enumeration", engine="core-trace"),
     "C25": dict(claimed=True, engine="edge-codec", level="model_checking",
                 text="TLC enumerates every edge sequence over boundary classes with the specification's predicted decoding; each case "
